@@ -1,2 +1,4 @@
 import ThermoVerif.Model.Network
+import ThermoVerif.Model.PropCache
+import ThermoVerif.Props.C14
 import ThermoVerif.Props.C18
